@@ -24,7 +24,7 @@ def value(rnd, letter):
     if k < 0.2:
         return rnd.choice(["-0", "+0", "0", "0.0", "-0.0", "00000", ".0"])
     if k < 0.3:
-        return rnd.choice([".5", "5.", "-.5", "+5.", "0005", "5.000000", "-5."])
+        return rnd.choice([".5", "5.", "-.5", "+5.", "0005", "5.000000", "-5.", "15,5", "0,0", "-3,25", "1.2.3", "4..", "7e", "0x1F"])
     if letter in "IJR":
         big = 10 ** rnd.randint(-3, 4)
         s = fmt(rnd.uniform(-1, 1) * big, rnd.choice([0, 1, 3, 6]))
